@@ -15,6 +15,19 @@ func ignoredPartTemplates(eco string) (plain, suffixed string) {
 	return "", ""
 }
 
+// freeRunOf: the free-run template of the ecosystem (its own for debian, rpm and alpm).
+func freeRunOf(eco string) string {
+	switch eco {
+	case "debian":
+		return "{d}.{d}{[a-z+~.\\-]}{[a-z+~.]}"
+	case "rpm":
+		return "{d}.{d}{[a-z~^._]}{[a-z~^._]}"
+	case "alpm":
+		return "{d}.{[a-z0-9._]}{[a-z0-9._]}"
+	}
+	return freeRunTemplate(eco)
+}
+
 func init() {
 	registerCheck(&CheckDef{
 		ID:    "C20",
@@ -59,6 +72,32 @@ func init() {
 						}
 					}
 				}
+				// the free-run template (two characters over the whole version alphabet) against the
+				// must-have spellings: pairs in both orders and the six orders of a triple
+				if fr := freeRunOf(eco); fr != "" {
+					must := mustTemplates(eco)
+					frRanges := thin(rs, 6)
+					if tier == "thorough" {
+						frRanges = thin(rs, 16)
+					}
+					for _, r := range frRanges {
+						if eco == "pypi" && len(r) >= 3 && r[:3] == "===" {
+							continue
+						}
+						for _, t := range append(append([]string{}, must...), fr) {
+							for _, pr := range [][2]string{{fr, t}, {t, fr}} {
+								out = append(out, &Config{ID: fmt.Sprintf("C20/cong/%s/%s/free/%s|%s", eco, r, pr[0], pr[1]), Pkg: zzhPkg, Func: "C20Cong", Args: []ArgSpec{ArgStr(eco), ArgTmpl(r), ArgTmpl(pr[0]), ArgTmpl(pr[1])}})
+							}
+						}
+						if !isConjunctive(r) {
+							continue
+						}
+						m0, m1 := must[0], must[len(must)-1]
+						for _, tr := range [][3]string{{fr, m0, m1}, {m0, fr, m1}, {m0, m1, fr}, {fr, fr, m0}, {m0, fr, fr}, {fr, m1, fr}} {
+							out = append(out, &Config{ID: fmt.Sprintf("C20/convex/%s/%s/free/%s|%s|%s", eco, r, tr[0], tr[1], tr[2]), Pkg: zzhPkg, Func: "C20Convex", Args: []ArgSpec{ArgStr(eco), ArgTmpl(r), ArgTmpl(tr[0]), ArgTmpl(tr[1]), ArgTmpl(tr[2])}})
+						}
+					}
+				}
 				for _, r := range rs {
 					if eco == "pypi" && len(r) >= 3 && r[:3] == "===" {
 						continue
@@ -83,7 +122,7 @@ func init() {
 			return out
 		},
 		Bounds: func(tier string) string {
-			return "ranges: comparator forms per DESIGN B.1 plus shorthand constructs per B.4 (thinned to 12 quick / 40 thorough per ecosystem); versions: 5 (12) grammar templates for pairs, 3 (7) for triples; pypi '===' excluded; one comparator range per operator whose bound and candidates carry build metadata / a pypi local label; alpm pairs differing in pkgrel presence excluded"
+			return "ranges: comparator forms per DESIGN B.1 plus shorthand constructs per B.4 (thinned to 12 quick / 40 thorough per ecosystem); versions: 5 (12) grammar templates for pairs, 3 (7) for triples; pypi '===' excluded; per ecosystem one free-run version template (two characters over the version alphabet) against the must-have spellings on 6 (16) ranges; one comparator range per operator whose bound and candidates carry build metadata / a pypi local label; alpm pairs differing in pkgrel presence excluded"
 		},
 	})
 }
